@@ -1,9 +1,13 @@
 mod common;
 mod fam_lit;
+mod fam_path;
+mod fam_sync;
+mod pathmon;
 mod lit;
 mod orch;
 mod props;
 mod rc11;
+mod sync;
 
 fn usage() -> ! {
     eprintln!("usage: lv check <C01..C20> [--tier quick|thorough] [--seed N]\n       lv replay <file>\n       lv selftest\n       lv worker <family> <prop> <tier> <seed> <start> <stride> <end>");
@@ -53,6 +57,8 @@ fn main() {
             }
             std::process::exit(props::replay(&a[2]));
         }
+        "child-lit" => std::process::exit(fam_path::child_main(&a[2])),
+        "child-threads" => std::process::exit(fam_path::child_threads(a[2].parse().unwrap(), a[3].parse().unwrap())),
         "shrink" => std::process::exit(props::shrink(&a[2])),
         "selftest" => std::process::exit(props::selftest()),
         _ => usage(),
